@@ -105,6 +105,18 @@ def check(run):
         if r.get("n_content"):
             nontrivial.add((c["dialect"], c["sql"]))
     n1 += len(cases)
+    # exhaustive insertion sweep: the failing mutants are re-run for the full report
+    cases, sw = rtlib.sweep_failures(run, "content")
+    run.notes["insertion_sweep"] = sw
+    J.stream("sweep")["cases"] += sw.get("tried", 0)
+    J.stream("sweep")["accepted"] += sw.get("accepted", 0)
+    J.stream("sweep")["rejected_or_no_site"] += sw.get("tried", 0) - sw.get("accepted", 0)
+    res = run_bin_parallel(PKG, ["content"], cases, pkg=PKG) if cases else []
+    for c, r in zip(cases, res):
+        if r["status"] in ("rejected", "ok", "exempt-copy-payload"):
+            continue
+        J.stream("sweep")["accepted"] -= 1   # counted again by judge_content
+        judge_content(J, "sweep", c, c["sql"], r, origin=c["origin"])
     nmut = 0
     for stream, cases in rtlib.mutation_streams(run):
         res = run_bin_parallel(PKG, ["splice"], cases, pkg=PKG)
